@@ -59,6 +59,9 @@ def np_array(kind, toks):
         v = big[::2]
         v.flags.writeable = False
         return v
+    if form == "swapped":
+        # the other byte order (what data read from a big-endian binary format looks like)
+        return a.astype(a.dtype.newbyteorder()) if a.dtype.kind in "iufMm" and a.dtype.itemsize > 1 else a
     if form == "reversed":
         v = a[::-1].copy()[::-1]
         v.flags.writeable = False
